@@ -307,7 +307,6 @@ structure GlobalsPolicy where
   /-- `(global, accessor function)`: lazily built tables behind a `sync.Once` -/
   onceTables : List (Nm × Nm)
   onceField : Nm
-  tableField : Nm
   forbiddenImports : List Nm
   /-- named types of other packages with one of these prefixes are rejected … -/
   forbiddenTypePrefixes : List Nm
